@@ -2519,7 +2519,7 @@ class Matrix:
             if isinstance(m, str):
                 if not m:
                     return
-                self.parse(m)
+                self.parse(m, **kwargs)
                 self.render(**kwargs)
             else:
                 self.a = m[0]
@@ -2654,7 +2654,18 @@ class Matrix:
         origin *= self
         return origin.angle_to(prx)
 
-    def parse(self, transform_str):
+    def parse(
+        self,
+        transform_str,
+        ppi=None,
+        relative_length=None,
+        width=None,
+        height=None,
+        font_size=None,
+        font_height=None,
+        viewbox=None,
+        **kwargs,
+    ):
         """Parses the svg transform string.
 
         Transforms from SVG 1.1 have a smaller complete set of operations. Whereas in SVG 2.0 they gain
@@ -2672,6 +2683,29 @@ class Matrix:
             return
         if not isinstance(transform_str, str):
             raise TypeError("Must provide a string to parse")
+        if width is None:
+            width = relative_length
+        if height is None:
+            height = relative_length
+
+        def x_length(p):
+            # Lengths are resolved now if the information was given (else at render time).
+            return Length(p).value(
+                ppi=ppi,
+                relative_length=width,
+                font_size=font_size,
+                font_height=font_height,
+                viewbox=viewbox,
+            )
+
+        def y_length(p):
+            return Length(p).value(
+                ppi=ppi,
+                relative_length=height,
+                font_size=font_size,
+                font_height=font_height,
+                viewbox=viewbox,
+            )
 
         for sub_element in REGEX_TRANSFORM_TEMPLATE.findall(transform_str.lower()):
             try:
@@ -2683,18 +2717,18 @@ class Matrix:
                     self.pre_cat(*params)
                 elif SVG_TRANSFORM_TRANSLATE == name:
                     try:
-                        x_param = Length(params[0]).value()
+                        x_param = x_length(params[0])
                     except IndexError:
                         continue
                     try:
-                        y_param = Length(params[1]).value()
+                        y_param = y_length(params[1])
                         self.pre_translate(x_param, y_param)
                     except IndexError:
                         self.pre_translate(x_param)
                 elif SVG_TRANSFORM_TRANSLATE_X == name:
-                    self.pre_translate(Length(params[0]).value(), 0)
+                    self.pre_translate(x_length(params[0]), 0)
                 elif SVG_TRANSFORM_TRANSLATE_Y == name:
-                    self.pre_translate(0, Length(params[0]).value())
+                    self.pre_translate(0, y_length(params[0]))
                 elif SVG_TRANSFORM_SCALE == name:
                     params = map(float, params)
                     self.pre_scale(*params)
@@ -2705,12 +2739,12 @@ class Matrix:
                 elif SVG_TRANSFORM_ROTATE == name:
                     angle = Angle.parse(params[0])
                     try:
-                        x_param = Length(params[1]).value()
+                        x_param = x_length(params[1])
                     except IndexError:
                         self.pre_rotate(angle)
                         continue
                     try:
-                        y_param = Length(params[2]).value()
+                        y_param = y_length(params[2])
                         self.pre_rotate(angle, x_param, y_param)
                     except IndexError:
                         self.pre_rotate(angle, x_param)
@@ -2722,36 +2756,36 @@ class Matrix:
                         self.pre_skew(angle_a, 0)
                         continue
                     try:
-                        x_param = Length(params[2]).value()
+                        x_param = x_length(params[2])
                     except IndexError:
                         self.pre_skew(angle_a, angle_b)
                         continue
                     try:
-                        y_param = Length(params[3]).value()
+                        y_param = y_length(params[3])
                         self.pre_skew(angle_a, angle_b, x_param, y_param)
                     except IndexError:
                         self.pre_skew(angle_a, angle_b, x_param)
                 elif SVG_TRANSFORM_SKEW_X == name:
                     angle_a = Angle.parse(params[0])
                     try:
-                        x_param = Length(params[1]).value()
+                        x_param = x_length(params[1])
                     except IndexError:
                         self.pre_skew_x(angle_a)
                         continue
                     try:
-                        y_param = Length(params[2]).value()
+                        y_param = y_length(params[2])
                         self.pre_skew_x(angle_a, x_param, y_param)
                     except IndexError:
                         self.pre_skew_x(angle_a, x_param)
                 elif SVG_TRANSFORM_SKEW_Y == name:
                     angle_b = Angle.parse(params[0])
                     try:
-                        x_param = Length(params[1]).value()
+                        x_param = x_length(params[1])
                     except IndexError:
                         self.pre_skew_y(angle_b)
                         continue
                     try:
-                        y_param = Length(params[2]).value()
+                        y_param = y_length(params[2])
                         self.pre_skew_y(angle_b, x_param, y_param)
                     except IndexError:
                         self.pre_skew_y(angle_b, x_param)
